@@ -234,14 +234,79 @@ pub fn gen_transport(thorough: bool, seed: u64, w: &mut dyn Write) {
             g.line(&format!("{} {}", if dbl { "feed2" } else { "feed" }, hex(&c)));
         }
     }
+    gen_sessions(&mut r, &mut g, thorough);
+}
+
+/// (4) several sessions on one reader, separated by `reset` (what the tasks do when a session ends): a
+/// session may end in the middle of an assembly, the next one may begin with a stray continuation segment
+/// carrying exactly the next sequence number (S86) — nothing of the old session may be completed by it
+fn gen_sessions(r: &mut Rng, g: &mut Gen, thorough: bool) {
+    let rxs = [249usize, 250, 497, 498, 2048];
+    let n = if thorough { 20000 } else { 1000 };
+    for _ in 0..n {
+        let rx = *r.pick(&rxs);
+        g.hdr("sessions", "");
+        g.line(&format!("new o 0 {} {} {} s", OUTST, rx, if r.chance(1, 2) { "c" } else { "d" }));
+        let ns = r.range(2, 4);
+        let mut next_seq: Option<u8> = None;
+        let mut last: Option<Vec<u8>> = None;
+        for si in 0..ns {
+            let mut stream = Vec::new();
+            let mut segs: Vec<(u16, u8, Vec<u8>)> = Vec::new();
+            // a stray continuation of what the previous session left open
+            if let Some(sq) = next_seq.take() {
+                if r.chance(2, 3) {
+                    let fin = if r.chance(1, 2) { 0x80 } else { 0 };
+                    let sq = if r.chance(4, 5) { sq } else { (sq + 1) & 0x3F };
+                    let n = r.range(1, 100) as usize;
+                    segs.push((MASTER, fin | sq, r.bytes(n)));
+                }
+            }
+            // 0..2 complete fragments
+            for _ in 0..r.below(3) {
+                let len = r.range(1, (rx as u64).min(700)) as usize;
+                let f = r.bytes(len);
+                let sq0 = r.below(64) as u8;
+                for (tb, d) in ref_segment(true, MASTER, OUTST, sq0, &f) {
+                    segs.push((MASTER, tb, d));
+                }
+                last = Some(f);
+            }
+            // all but the last session end inside a multi-segment fragment
+            if si + 1 < ns && r.chance(3, 4) {
+                let len = r.range(250, (rx as u64).max(260).min(900)) as usize;
+                let (sq0, body) = (r.below(64) as u8, r.bytes(len));
+                let all = ref_segment(true, MASTER, OUTST, sq0, &body);
+                let keep = r.range(1, (all.len() - 1) as u64) as usize;
+                for (tb, d) in all.into_iter().take(keep) {
+                    next_seq = Some(((tb & 0x3F) + 1) & 0x3F);
+                    segs.push((MASTER, tb, d));
+                }
+                last = None;
+            }
+            for (src, tb, d) in &segs {
+                g.line(&format!("@seg {} {} {} {} {}", src, OUTST, 0xC4, tb, hex(d)));
+                stream.extend(data_frame(true, *src, OUTST, *tb, d));
+            }
+            for c in chunk_stream(r, &stream) {
+                g.line(&format!("feed {}", hex(&c)));
+            }
+            if si + 1 < ns {
+                g.line("@session-end");
+                g.line("reset");
+            }
+        }
+        let _ = last;
+    }
 }
 
 /// C07: exhaustive link-layer addressing table
 pub fn gen_linkaddr(thorough: bool, seed: u64, w: &mut dyn Write) {
     let mut r = Rng::new(seed);
     let mut g = Gen { w, case: 0 };
-    let dests: [u16; 7] = [OUTST, 77, 0xFFFC, 0xFFFF, 0xFFFE, 0xFFFD, 0xFFF3];
-    let srcs: [u16; 4] = [MASTER, 0xFFF1, 0xFFFE, 0xFFFC];
+    // both ends of the reserved block 0xFFF0..=0xFFFB and the last ordinary address (S96)
+    let dests: [u16; 10] = [OUTST, 77, 0xFFFC, 0xFFFF, 0xFFFE, 0xFFFD, 0xFFF3, 0xFFF0, 0xFFFB, 0xFFEF];
+    let srcs: [u16; 7] = [MASTER, 0xFFF1, 0xFFFE, 0xFFFC, 0xFFF0, 0xFFFB, 0xFFEF];
     for role_master in [false, true] {
         for self_addr in [false, true] {
             for sec in 0..3 {
@@ -434,6 +499,8 @@ pub fn run(ops: &str, out: &mut dyn Write, mon: &mut dyn Write) {
                     ["@seg", s, d, c, tb, h] => segs.push((s.parse().unwrap(), d.parse().unwrap(), c.parse().unwrap(), tb.parse().unwrap(), unhex(h))),
                     ["@want", s, h] => want = Some(Some((s.parse().unwrap(), unhex(h)))),
                     ["@wantnone"] => want = Some(None),
+                    // the end of a session: no run of segments continues across it (a sentinel no run can join)
+                    ["@session-end"] => segs.push((0xFFEF, local, 0xC4, 0xC0, Vec::new())),
                     ["@test", c, d, s, _p] => test = Some((c.parse().unwrap(), d.parse().unwrap(), s.parse().unwrap())),
                     ["@cdata", fcb, dst] => pending_cdata = Some((*fcb == "true", dst.parse().unwrap())),
                     [] => {}
@@ -441,7 +508,7 @@ pub fn run(ops: &str, out: &mut dyn Write, mon: &mut dyn Write) {
                 }
             }
             // C08 monitors
-            if kind == "seg" || kind == "mutate" {
+            if kind == "seg" || kind == "mutate" || kind == "sessions" {
                 // (a) every delivered fragment is a contiguous FIR..FIN run of accepted segments
                 let acc: Vec<&(u16, u16, u8, u8, Vec<u8>)> = segs
                     .iter()
